@@ -70,7 +70,9 @@ Inductive stmt :=
 | SBreak
 | SContinue.
 
-Record fndef := { fn_recv : ident; fn_params : list ident; fn_body : list stmt }.
+(* fn_wb: the positions (1, 2, ..) of the slice parameters through which the function writes; their final values
+   are handed back to the caller, which stores them into the argument places (see call_step / ECall) *)
+Record fndef := { fn_recv : ident; fn_params : list ident; fn_wb : list nat; fn_body : list stmt }.
 (* a program: methods keyed by (receiver type name, method name); struct declarations *)
 Record program := {
   p_fns : list ((ident * ident) * fndef);
@@ -119,7 +121,9 @@ Inductive val :=
 | VObj (t : ident) (fs : list (ident * val))  (* (pointer to) a struct of type t *)
 | VNamed (t : ident) (v : val)                (* a value of the named non-struct type t *)
 | VTuple (l : list val)                       (* results of a call: [] for none *)
-| VMeth (recv : val) (m : ident).             (* method value *)
+| VMeth (recv : val) (m : ident)              (* method value *)
+| VTag (p : nat) (v : val)                    (* inside a callee: the slice that came in as written-back parameter p *)
+| VWb (v : val) (wbs : list (nat * val)).     (* the receiver after a call + the final values of its written-back parameters *)
 
 Definition env := list (ident * val).
 Inductive sig := SgNormal | SgReturn (v : val) | SgBreak | SgContinue.
@@ -149,12 +153,48 @@ Fixpoint find_fn (l : list ((ident * ident) * fndef)) (t m : ident) : option fnd
 Definition zero_of (zk : zkind) : val :=
   match zk with ZInt => VInt 0 | ZBool => VBool false | ZElem => VElem zero | ZSlice => VSlice [] | ZNil => VNil end.
 
-Definition as_slice (v : val) : option (list val) :=
-  match v with VSlice l => Some l | VNamed _ (VSlice l) => Some l | _ => None end.
-Definition re_slice (v : val) (l : list val) : val :=
-  match v with VNamed t _ => VNamed t (VSlice l) | _ => VSlice l end.
-Definition type_of (v : val) : option ident :=
-  match v with VObj t _ => Some t | VNamed t _ => Some t | _ => None end.
+(* the elements of a slice value, through the wrappers (named slice type, parameter tag) *)
+Fixpoint as_slice (v : val) : option (list val) :=
+  match v with VSlice l => Some l | VNamed _ w => as_slice w | VTag _ w => as_slice w | _ => None end.
+(* the same slice value with other elements: the wrappers stay *)
+Fixpoint re_slice (v : val) (l : list val) : val :=
+  match v with VNamed t w => VNamed t (re_slice w l) | VTag p w => VTag p (re_slice w l) | _ => VSlice l end.
+Fixpoint type_of (v : val) : option ident :=
+  match v with VObj t _ => Some t | VNamed t _ => Some t | VTag _ w => type_of w | _ => None end.
+
+(* Slice PARAMETERS with write-back.  A callee's element writes into a slice parameter are visible to the caller
+   in Go (shared backing array).  With value semantics: the arguments at the positions fn_wb are tagged on entry;
+   the tag travels with the value (element writes, copy, swapping two slice variables keep it); on return the
+   value carrying tag p - wherever it is now - is handed back (wrapped around the final receiver: [VWb]) and the caller stores it into the argument
+   expression when that is a place or a segment x[a:b] of one.  Sound as long as the tagged value is not
+   duplicated (the translator's aliasing check; a parallel assignment that permutes variables is not a
+   duplication) and the callee does not keep the parameter beyond the call. *)
+(* The tags of the caller's own frame mean nothing inside the callee: they are removed from every argument.  A
+   written-back parameter has an unnamed slice type []T (Go converts a named slice such as array_ to it): the callee
+   gets the bare slice under its tag. *)
+Fixpoint untag (v : val) : val := match v with VTag _ w => untag w | _ => v end.
+Definition bare (v : val) : val := match as_slice v with Some l => VSlice l | None => v end.
+Fixpoint tag_args (wb : list nat) (i : nat) (args : list val) : list val :=
+  match args with
+  | [] => []
+  | a :: t => (if existsb (Nat.eqb i) wb then VTag i (bare a) else untag a) :: tag_args wb (S i) t
+  end.
+Fixpoint find_tag (p : nat) (en : list (ident * val)) : option val :=
+  match en with
+  | [] => None
+  | (_, VTag q w) :: t => if Nat.eqb p q then Some w else find_tag p t
+  | _ :: t => find_tag p t
+  end.
+Fixpoint collect_wb (wb : list nat) (en : list (ident * val)) : option (list (nat * val)) :=
+  match wb with
+  | [] => Some []
+  | p :: t => match find_tag p en, collect_wb t en with Some w, Some r => Some ((p, w) :: r) | _, _ => None end
+  end.
+Definition with_wb (wb : list nat) (out : val) (en : list (ident * val)) : option val :=
+  match wb with
+  | [] => Some out
+  | _ => match collect_wb wb en with Some r => Some (VWb out r) | None => None end
+  end.
 
 (* x[i]: None = index out of range *)
 Definition zidx (l : list val) (i : Z) : option val :=
@@ -193,6 +233,9 @@ Definition arith (op : binop) (a b : val) : res unit val :=
 (* a place: a variable or a field path; the receiver of a method call is written back when it is one *)
 Fixpoint is_place (e : expr) : bool :=
   match e with EVar _ => true | EField e' _ => is_place e' | _ => false end.
+(* an argument expression into which a written-back slice parameter can be stored: a place or a segment of one *)
+Fixpoint is_lplace (e : expr) : bool :=
+  match e with EVar _ => true | EField e' _ => is_lplace e' | ESlice e' _ _ => is_lplace e' | _ => false end.
 
 Definition ret_val (vs : list val) : val :=
   match vs with [v] => v | _ => VTuple vs end.
@@ -296,6 +339,27 @@ Fixpoint range (k x : option ident) (l : list val) (i : Z) (body : list stmt) (e
     end
   end.
 
+Definition un_wb (rv : val) : val * list (nat * val) :=
+  match rv with VWb r wbs => (r, wbs) | _ => (rv, []) end.
+(* after a call: store the written-back slice parameters into the argument expressions that are places *)
+Fixpoint store_wbs (args : list expr) (wbs : list (nat * val)) (en : env) : eres env :=
+  match wbs with
+  | [] => ROk en
+  | (p, w) :: t =>
+    match nth_error args (Nat.pred p) with
+    | Some a =>
+      if is_lplace a then
+        (* the elements come back; what the place holds stays the kind of slice it was (its name, its tag) *)
+        do (cur, _) <- i_eval r a en;
+        match as_slice w with
+        | Some l => do en1 <- i_assign r a (re_slice cur l) en; store_wbs args t en1
+        | None => RStuck
+        end
+      else store_wbs args t en
+    | None => RStuck
+    end
+  end.
+
 Definition eval_step (e : expr) (en : env) : eres (val * env) :=
   let eval := i_eval r in
   match e with
@@ -394,19 +458,19 @@ Definition eval_step (e : expr) (en : env) : eres (val * env) :=
          and the callee's final receiver value is written back *)
       do (rv, _) <- eval rc en2;
       match i_call r rv m avs with
-      | ROk (out, rv') => do en3 <- i_assign r rc rv' en2; ROk (out, en3)
+      | ROk (out, rv') => do en3 <- i_assign r rc (fst (un_wb rv')) en2; do en4 <- store_wbs args (snd (un_wb rv')) en3; ROk (out, en4)
       | RPanic rv' => do en3 <- i_assign r rc rv' en2; RPanic en3      (* what the callee had done stays done *)
       | RStuck => RStuck
       | RFuel => RFuel
       end
     else
-      do (out, _) <- at_state en2 (i_call r rv0 m avs); ROk (out, en2)
+      do (out, rv') <- at_state en2 (i_call r rv0 m avs); do en3 <- store_wbs args (snd (un_wb rv')) en2; ROk (out, en3)
   | EMethVal rc m => do (rv, en1) <- eval rc en; ROk (VMeth rv m, en1)
   | ECallVal fn args =>
     do (fv, en1) <- eval fn en;
     do (avs, en2) <- evals args en1;
     match fv with
-    | VMeth rv m => do (out, _) <- at_state en2 (i_call r rv m avs); ROk (out, en2)
+    | VMeth rv m => do (out, rv') <- at_state en2 (i_call r rv m avs); do en3 <- store_wbs args (snd (un_wb rv')) en2; ROk (out, en3)
     | _ => RStuck
     end
   end.
@@ -528,7 +592,7 @@ Definition call_step (recv : val) (m : ident) (args : list val) : cres :=
   | Some t =>
     match find_fn (p_fns prog) t m with
     | Some fd =>
-      match bind_all (fn_params fd) args [(fn_recv fd, recv)] with
+      match bind_all (fn_params fd) (tag_args (fn_wb fd) 1 args) [(fn_recv fd, recv)] with
       | None => RStuck
       | Some en0 =>
         match execs (fn_body fd) en0 with
@@ -537,8 +601,8 @@ Definition call_step (recv : val) (m : ident) (args : list val) : cres :=
           | None => RStuck
           | Some recv' =>
             match sg with
-            | SgNormal => ROk (VTuple [], recv')
-            | SgReturn v => ROk (v, recv')
+            | SgNormal => match with_wb (fn_wb fd) recv' en1 with Some r => ROk (VTuple [], r) | None => RStuck end
+            | SgReturn v => match with_wb (fn_wb fd) recv' en1 with Some r => ROk (v, r) | None => RStuck end
             | _ => RStuck
             end
           end
@@ -587,7 +651,7 @@ Definition panic_state (fuel : nat) (recv : val) (m : ident) (args : list val) :
 End Interp.
 
 Arguments VInt {A}. Arguments VBool {A}. Arguments VElem {A}. Arguments VNil {A}. Arguments VSlice {A}.
-Arguments VObj {A}. Arguments VNamed {A}. Arguments VTuple {A}. Arguments VMeth {A}.
+Arguments VObj {A}. Arguments VNamed {A}. Arguments VTuple {A}. Arguments VMeth {A}. Arguments VTag {A}. Arguments VWb {A}.
 (* proofs unfold the interpreter one level at a time, by rewriting (GenLib.v) *)
 Arguments interp_at : simpl never.
 Arguments i_eval {A}. Arguments i_assign {A}. Arguments i_exec {A}. Arguments i_loop {A}. Arguments i_call {A}.
